@@ -8,7 +8,7 @@ Import ListNotations.
 Lemma msec_player_enabled s i p : get_player s i = Some p -> pc_msec (ppc_ p) = true ->
   step_player s i <> None.
 Proof.
-  intros Hp Hm. unfold step_player. rewrite Hp.
+  intros Hp Hm. unfold step_player. rewrite Hp. destruct (pfill p); [|discriminate].
   destruct (ppc_ p); simpl in Hm; try discriminate; discriminate.
 Qed.
 
@@ -28,11 +28,11 @@ Lemma tsec_player_enabled s i p : inv s -> get_player s i = Some p -> pc_tsec (p
 Proof.
   intros I Hp Ht Hm.
   destruct (ppc_ p) eqn:Epc; simpl in Ht; try discriminate;
-    try (exists i; unfold step_player; rewrite Hp, Epc; discriminate).
+    try (exists i; unfold step_player; rewrite Hp; destruct (pfill p); [rewrite Epc|]; discriminate).
   (* PFinAcq *)
   destruct (smlock s) as [tid|] eqn:El.
   - eapply mlock_holder_enabled; eauto.
-  - exists i. unfold step_player. rewrite Hp, Epc, El. discriminate.
+  - exists i. unfold step_player. rewrite Hp. destruct (pfill p); [rewrite Epc, El|]; discriminate.
 Qed.
 
 (* an alive player that the main thread joins can move (or somebody else can) *)
@@ -46,13 +46,13 @@ Proof.
   assert (Hself : ptlock p = if pc_tsec (ppc_ p) then Some (S t) else None)
     by (apply (p_tlock_self _ _ _ Pt); congruence).
   destruct (ppc_ p) eqn:Epc; try congruence;
-    try (exists t; unfold step_player; rewrite Hp, Epc; simpl; discriminate);
+    try (exists t; unfold step_player; rewrite Hp; destruct (pfill p); [rewrite Epc; simpl; try destruct (pgo p)|]; discriminate);
     try (eapply (tsec_player_enabled s t p); eauto; rewrite Epc; reflexivity).
   - (* PNew *) assert (m_new (smpc s) = Some t) by (apply (p_new _ _ _ Pt); exact Epc). congruence.
-  - (* PWrite *) exists t. unfold step_player. rewrite Hp, Epc.
+  - (* PWrite *) exists t. unfold step_player. rewrite Hp. destruct (pfill p); [rewrite Epc|discriminate].
     destruct (prem p) eqn:Er; [exfalso; apply (p_write_ne _ _ _ Pt); auto|discriminate].
-  - (* PWait *) exists t. unfold step_player. rewrite Hp, Epc, (Hgo eq_refl). discriminate.
-  - (* PEpiAcq *) exists t. unfold step_player. rewrite Hp, Epc, Hself. simpl. discriminate.
+  - (* PWait *) exists t. unfold step_player. rewrite Hp. destruct (pfill p); [rewrite Epc, (Hgo eq_refl)|]; discriminate.
+  - (* PEpiAcq *) exists t. unfold step_player. rewrite Hp. destruct (pfill p); [rewrite Epc, Hself; simpl|]; discriminate.
 Qed.
 
 Lemma get_player_of_ref s t : inv s -> In t (m_refs (smpc s)) -> exists p, get_player s t = Some p.
